@@ -6,18 +6,36 @@ namespace Xmp.LinFlow
 /-- the `bpm < XMP_MIN_BPM` clamp at the top of the row loop -/
 def clampBpm (st : ScanSt) : ScanSt := { st with bpm := if st.bpm < 20 then 20 else st.bpm }
 
+/-- the row loop stops at a row: runaway guard, or row already scanned -/
+theorem scanRows_cons_stop (ord : Nat) (fx : Fx) (rest : List Fx) (row : Nat) (st0 : ScanSt)
+    (h : st0.rowCountTotal > rowLimit ∨ cntAt st0.cnt ord row ≠ 0) :
+    ∃ s r, scanRows ord (fx :: rest) row st0 = .endMod s r ∧ s.cnt = st0.cnt ∧ s.ctl = st0.ctl ∧ s.info = st0.info := by
+  rw [scanRows]
+  simp only []
+  by_cases hg : st0.rowCountTotal > rowLimit
+  · rw [if_pos hg]; exact ⟨_, _, rfl, rfl, rfl, rfl⟩
+  · rw [if_neg hg]
+    have hv : cntAt st0.cnt ord row ≠ 0 := by
+      rcases h with h | h
+      · exact absurd h hg
+      · exact h
+    rw [if_pos hv]; exact ⟨_, _, rfl, rfl, rfl, rfl⟩
+
 theorem scanRows_cons_visited (ord : Nat) (fx : Fx) (rest : List Fx) (row : Nat) (st0 : ScanSt)
     (h : cntAt st0.cnt ord row ≠ 0) : ∃ s r, scanRows ord (fx :: rest) row st0 = .endMod s r := by
-  rw [scanRows, if_pos h]
-  exact ⟨_, _, rfl⟩
+  obtain ⟨s, r, h1, _⟩ := scanRows_cons_stop ord fx rest row st0 (Or.inr h)
+  exact ⟨s, r, h1⟩
 
 theorem scanRows_cons_fresh' (ord : Nat) (fx : Fx) (rest : List Fx) (row : Nat) (st0 : ScanSt)
-    (h : cntAt st0.cnt ord row = 0) :
+    (h : cntAt st0.cnt ord row = 0) (hg : st0.rowCountTotal ≤ rowLimit) :
     scanRows ord (fx :: rest) row st0 =
       match fx with
         | .jump j => .done (visitStep ord row (.jump j) (clampBpm st0)) (some j)
         | _ => scanRows ord rest (row + 1) (visitStep ord row fx (clampBpm st0)) := by
-  rw [scanRows, if_neg (by intro hh; exact hh h)]
+  have hg' : ¬ st0.rowCountTotal > rowLimit := by omega
+  rw [scanRows]
+  simp only []
+  rw [if_neg hg', if_neg (by intro hh; exact hh h)]
   cases fx <;> rfl
 
 theorem scanRows_done_mono (ord : Nat) : ∀ (fxs : List Fx) (row : Nat) (st st' : ScanSt) (o2 : Option Nat),
@@ -34,11 +52,18 @@ theorem scanRows_done_mono (ord : Nat) : ∀ (fxs : List Fx) (row : Nat) (st st'
     rw [← h.1]; simp
   | cons fx tl ih =>
     intro row st st' o2 h
-    by_cases hv : cntAt st.cnt ord row ≠ 0
-    · obtain ⟨s, r, he⟩ := scanRows_cons_visited ord fx tl row st hv
+    by_cases hv : st.rowCountTotal > rowLimit ∨ cntAt st.cnt ord row ≠ 0
+    · obtain ⟨s, r, he, _⟩ := scanRows_cons_stop ord fx tl row st hv
       rw [he] at h; cases h
-    · have hv0 : cntAt st.cnt ord row = 0 := by simpa using hv
-      rw [scanRows_cons_fresh' ord fx tl row st hv0] at h
+    · have hv0 : cntAt st.cnt ord row = 0 := by
+        by_cases h0 : cntAt st.cnt ord row = 0
+        · exact h0
+        · exact absurd (Or.inr h0) hv
+      have hg0 : st.rowCountTotal ≤ rowLimit := by
+        by_cases h0 : st.rowCountTotal > rowLimit
+        · exact absurd (Or.inl h0) hv
+        · omega
+      rw [scanRows_cons_fresh' ord fx tl row st hv0 hg0] at h
       have hc : (clampBpm st).cnt = st.cnt := rfl
       have key : ∀ vs : ScanSt, vs = visitStep ord row fx (clampBpm st) →
           vs.cnt.length = st.cnt.length ∧ (∀ o, (vs.cnt.getD o []).length = (st.cnt.getD o []).length) ∧
